@@ -27,13 +27,13 @@ Definition to_sparse (e : expr) : srow :=
   | ED d => mkSR (length d) (filter (fun p => negb (snd p =? 0)) (combine (seq 0 (length d)) d))
   end.
 Definition convert (sp : bool) (e : expr) : expr := if sp then ES (to_sparse e) else ED (to_dense e).
-(* Linear_Expression(e, space_dim, r): row size n.  Dense from anything and Sparse from Sparse truncate /
-   extend; Sparse from Dense copies ALL nonzero coefficients of e and only sets the size to n (as the code). *)
+(* Linear_Expression(e, space_dim, r): row size n.  Every combination truncates / extends; Sparse from Dense
+   copies the nonzero coefficients of e below min(size of e, n)  (finding C16-trunc-copy repaired). *)
 Definition copy_sized (sp : bool) (n : nat) (e : expr) : expr :=
   if sp then
     match e with
     | ES s => ES (mkSR n (filter (fun p => (fst p <? Nat.min (ssize s) n)%nat) (sents s)))
-    | ED d => ES (mkSR n (sents (to_sparse e)))
+    | ED d => ES (mkSR n (filter (fun p => (fst p <? Nat.min (length d) n)%nat) (sents (to_sparse e))))
     end
   else ED (map (ecoef e) (seq 0 (Nat.min n (esize e))) ++ repeat 0 (n - esize e)).
 
@@ -133,6 +133,10 @@ Definition combine_e (c1 c2 : Z) (f l : nat) (x y : expr) : expr :=
   | ES s, ED _ => ES (s_combine_sd c1 c2 f l s (ecoef y))
   end.
 
+(* linear_combine_lax(y, 0, c2, ...): a zero coefficient visited by the iterator of a dense y is not stored
+   (and resets the coefficient of x at that index) *)
+Definition nz_entry (e : sent) : bool := negb (snd e =? 0).
+
 Definition apply_bop (b : bop) (x y : expr) : expr :=
   match b with
   | BCombine c1 c2 f l => combine_e c1 c2 f l x y
@@ -144,17 +148,15 @@ Definition apply_bop (b : bop) (x y : expr) : expr :=
   | BLax0 c2 f l =>
     match x with
     | ED d => ED (d_combine 0 c2 f l d (ecoef y))
-    | ES s => ES (s_lax0 c2 f l s (visited f l y))
+    | ES s => ES (s_lax0 c2 f l s (filter nz_entry (visited f l y)))
     end
   end.
 
-(* the two combinations of representations on which the code is known to break the invariant of the
-   sparse expression (findings C16-lax-mixed, C16-trunc-copy); excluded from the interchangeability
-   theorem and refuted separately *)
-Definition bop_unsafe (b : bop) (x y : expr) : bool :=
-  match b with BLax0 _ _ _ => is_sparse x && negb (is_sparse y) | _ => false end.
-Definition copy_unsafe (sp : bool) (n : nat) (src : expr) : bool :=
-  sp && negb (is_sparse src) && (n <? esize src)%nat.
+(* Formerly two combinations of representations broke the invariant of the sparse expression (findings
+   C16-lax-mixed, C16-trunc-copy); both are repaired, no operation is unsafe any more (the flags are kept
+   so that the interpreter keeps its shape; ExprProofs.run_never_unsafe shows they are never raised). *)
+Definition bop_unsafe (b : bop) (x y : expr) : bool := false.
+Definition copy_unsafe (sp : bool) (n : nat) (src : expr) : bool := false.
 
 Definition apply_obs1 (o : obs1) (e : expr) : oval :=
   match e with
